@@ -15,13 +15,15 @@ CHECKS = {}
 
 NOT_APPLICABLE = {
     "C06": "Frequency response of a time-varying recursive Pade-approximated filter to 0.01 neper over all orders/alpha: a numerical statement with no clause visible in code shape; no sound static argument in reach (DESIGN.md §6).",
-    "C13": "Magnitude response of the LSP synthesis filter to 0.001 neper over orders/stages/random LSP sets: numerical; no static rule decides it (DESIGN.md §6; lsp2lpc defect noted there, not judged by a check).",
 }
 
 
 def claim(pid, technique, text, ref=None):
     CHECKS[pid] = (technique, text, ref or ("DESIGN.md §5 " + pid))
 
+
+claim("C13", "recurrence recognition over symbolised loop variables + role analysis of the parameter vector's elements (which elements reach a cosine, which the gain slot) + parity-guarded aggregate values + call-argument plumbing, over rustc MIR",
+      "Sound static decision of the structural clauses of C13, all in the LSP -> LPC -> MGC conversion: the order is len - 1 and A(z) is built from the line spectral frequencies only (P factors from elements 1,3,.., Q factors from elements 2,4,.., each -2cos w; element 0, the gain, never enters a cosine - the pinned tree violated this, repaired); section counts per parity; the two second-order-section chains, their inputs, a[k-1] = -(P+Q)/2 and the final shift; the gain slot (exp under log gain), the -stage scaling after ignorm and mgc2mgc(len-1, alpha, gamma); gamma = -1/stage and the constructor argument order. These are necessary conditions of `the response is K/|A|^s`. NOT decided: the MGLSA filter sections, frequency warping, the 0.001 neper law, decay for well-separated frequencies (numerical).")
 
 claim("C03", "effect/purity analysis of the resolved call-graph closure + deep type walk (no interior mutability) + trait-solver Send/Sync facts + setter backward slices, over rustc MIR",
       "Sound static decision that every function body reachable from Engine::synthesize/generator and SpeechGenerator's API is free of effects other than allocation and stderr diagnostics, reads only its arguments and constants, that no type reachable from &Engine admits mutation (audited: Arc counts, regex scratch cache), that Engine is Send+Sync, that setters are history-free and clones derived. This is the whole content of C03 (determinism, no engine mutation, schedule independence) as a code-shape fact; it is not an exploration of interleavings.")
